@@ -108,6 +108,7 @@ def exec_cases():
           '9007199254740993 == 9007199254740992', '0.1 + 0.2 == 0.30000000000000004', '1.000000000000000000000000001 == 1', '0.30000000000000001 != 0.3', '9007199254740993 in [9007199254740992]', "'1' == 1", "1 == '1'", "'1.0' in [1]", '1.0 == 1', '[1.0] == [1]',
           'price = 1.1; price = 1.10; price', 'qty = 3; qty = 3.00; qty', 'r = 0.5; r = 0.500; r = 0.50; r', 'a = 1.0; b = a; a = 1; [a, b]', 'x = 2.50; y = x; y',
           '5 = (y = 2)', 'a = 1; [a = 2] = (a = 3); a', 'n = 10; (n + 1) <<= (m = n)', 'one() = (y = two())', '(x = 1) = 2', 't() ? (u = 1) : (v = 2)', 'x = 1; x = boom(); y = 2',
+          '* 3', '1 + / 2', '[1, % 2]', 'x = == 4', '++ 5', ': 1', 'f(? 2)', '-- x', '&& true', 'in [1]', '! ! true', '- - 1', 'not not true', '* * 2', '1 ++ 2',
           'boomT()', 'boomP()', 'boomT', 'sum(1, boomT())', 'min(boomP(), 1)', '[boomT(), one()]', 'x = boomP(); x', 'boomT() ? 1 : 2', 'max(1, 2) + boomP()',
           'boom', 'cnt(boom, two())', 'id(boom)', '[one, boom, two()]', '{one: boom}', 'boom + one()', 'one() + boom', 'true ? boom : 1', 'false ? boom : two()', 'boom ? 1 : 2', 'x = 1; y = boom; z = two(); 4', 'x = boom', '-boom', 'boom++', 'cnt(one, two, t)', 't ? one : two',
           'x = 1', 'x = 1; x', 'x = 1; y = x + 1; y', 'x = 1; x += 2; x', 'x = 6; x -= 1; x *= 3; x %= 4; x', 'x = 8; x /= 2; x', 'x = 6; x &= 3; x |= 8; x ^= 1; x', 'x = y = 3', 'x = 1; x = true; x', 'x += 1', 'x = 1; x += true', 'x = 1; x += true; x',
